@@ -8,10 +8,23 @@
    (kind c16-digest). *)
 From stdpp Require Import gmap.
 From Coq Require Import NArith.
-From BV Require Import Base Heap Spec SpecLaws.
+From BV Require Import Base Heap Spec SpecLaws HeapWFOps HeapWFMain SizeInv RefineM1 RefineCor.
 
 (* M1's step function does not mention any configuration: this is its type, pinned *)
 Definition C16_value_model_has_no_configuration : N -> bool -> op -> sst -> sout := sstep.
 Example C16_nonvacuous : sstep 0 false (OBFromVec [1; 2]%N 2) sst0 = sstep 0 false (OBFromVec [1; 2]%N 9) sst0.
 Proof. reflexivity. Qed.
+(* On the representation model: what a history observes - every handle's kind and bytes (abs) and every return value - is the same
+   whatever the address parity of the byte buffers and whatever capacities the allocator delivers (the two runs may differ in both):
+   consequence of the refinement M2 refines M1 (C01).  Operations that ask the representation whether it is unique (is_unique,
+   try_into_mut, try_reclaim) are excluded here: their boolean is representation dependent by contract (C08 decides it). *)
+Theorem C16_observables_independent_of_parity_and_allocator : forall orcs1 n1 s1 orcs2 n2 s2 o r1 s1' e1 r2 s2' e2,
+  (forall i, oracle_sane (orcs1 i)) -> (forall i, oracle_sane (orcs2 i)) -> reach orcs1 n1 s1 -> reach orcs2 n2 s2 ->
+  abs s1 = abs s2 -> cap_of s1 o = cap_of s2 o -> uniq_free o = true -> op_ok s1 o -> op_ok s2 o ->
+  run_op (orcs1 n1) o s1 = OK r1 s1' e1 -> run_op (orcs2 n2) o s2 = OK r2 s2' e2 -> r1 = r2 /\ abs s1' = abs s2'.
+Proof. exact observables_independent_of_representation. Qed.
+Example C16_both_parities_start_equal : abs (hst0 false) = abs (hst0 true) /\ reach (fun _ => {| or_caps := [] |}) 0 (hst0 true).
+Proof. split; [by rewrite !abs0|constructor]. Qed.
 Print Assumptions C16_nonvacuous.
+Print Assumptions C16_observables_independent_of_parity_and_allocator.
+Print Assumptions C16_both_parities_start_equal.
